@@ -7,3 +7,45 @@ pub fn worker(_cfg: &WorkerCfg, _emit: &mut dyn FnMut(Violation)) -> Stats { Sta
 pub fn replay(_s: &Value) -> Result<Option<Violation>, String> { Err("not built".into()) }
 pub fn shrink(_s: &Value) -> Vec<Value> { vec![] }
 pub fn ref_one(_s: &str) -> i32 { 2 }
+/// development aid: print generated programs and what they build to
+pub fn dump_programs(seed: u64, n: usize) {
+    use crate::proggen;
+    use crate::rng::Rng;
+    let mut r = Rng::new(seed);
+    let mut ok = 0;
+    let mut by_err: std::collections::BTreeMap<String, usize> = Default::default();
+    for i in 0..n {
+        let fam = proggen::family(&mut r, 3, "x");
+        for p in fam {
+            let t = p.text();
+            let res = std::panic::catch_unwind(|| avra_lib::builder::build_str(&t));
+            let key = match &res {
+                Ok(Ok(_)) => {
+                    ok += 1;
+                    "ok".to_string()
+                }
+                Ok(Err(e)) => format!("intent={} err={}", p.intent, e.to_string().chars().take(50).collect::<String>()),
+                Err(_) => format!("intent={} PANIC", p.intent),
+            };
+            if i < 2 {
+                println!("---- intent={} -> {}\n{}", p.intent, key, t);
+            }
+            if let Ok(Err(e)) = &res {
+                let es = e.to_string();
+                if let Some(rest) = es.strip_prefix("failed to parse line: ") {
+                    let n: usize = rest.split(' ').next().unwrap().parse().unwrap_or(1);
+                    println!("PARSEFAIL: {}", t.lines().nth(n - 1).unwrap_or("?"));
+                }
+                if es.contains("can not be found") && p.intent == "ok" {
+                    println!("NOTFOUND: {}", es);
+                }
+            }
+            let k2: String = key.chars().map(|c| if c.is_ascii_digit() { '#' } else { c }).collect();
+            *by_err.entry(k2).or_insert(0) += 1;
+        }
+    }
+    println!("ok={}", ok);
+    for (k, v) in by_err {
+        println!("{:6} {}", v, k);
+    }
+}
